@@ -73,6 +73,30 @@ CLAIMED = {
                   'algebra summaries of handlers) + bounded equivalence of '
                   'the extracted summary with the documented fixpoint '
                   'semantics'),
+    'C02': dict(
+        partial=True,
+        text='The parts of the LTL tableau procedure are discovered from '
+             'LTL.modelcheck and analysed separately: the E-procedure '
+             'receives the path formula under an odd number of negations '
+             'and its result is complemented w.r.t. the states; one '
+             'iteration of the closure worklist per formula kind pushes '
+             'exactly the CGP closure members (other kinds raise '
+             'TypeError); one iteration of the atom builder per formula '
+             'kind on a generic atom (membership facts as path conditions, '
+             'operands decided by the sort-key invariant) leaves the atom '
+             'and every forked atom with exactly one of phi / not phi, '
+             'justified by its operands; the edge predicate, the '
+             'self-fulfilling-SCC filter and the answer filter are '
+             'summarised and compared with their specification on all '
+             'small instances. Two genuine defects found and repaired.',
+        ref='3-C02',
+        note='trusted: sort-key invariant of the atom builder; graph '
+             'primitives as documented; formulas compare by structure '
+             '(C09/C11); soundness/completeness of the tableau '
+             'construction itself is not decided',
+        technique='per-iteration abstract interpretation (Hoare-style) of '
+                  'closure and atom builder with a membership-facts domain; '
+                  'bounded equivalence of extracted guard summaries'),
     'C05': dict(
         text='Every rewriter (get_equivalent_restricted_formula of each '
              'alphabet class of CTL*, LTL, CTL; 41 rule instances) is '
